@@ -55,6 +55,32 @@ fn one<T: FftNum + ToPrimitive>(tyname: &str, mk: impl Fn(f64) -> T, n: usize, d
     }
 }
 
+fn one32(n: usize, dir: FftDirection, rng: &mut Rng, rep: &mut Report) {
+    rep.evaluations += 1;
+    let tag = format!("newtype-f32(4 bytes)/n={}/{}", n, dir_name(dir));
+    let r = catch(|| {
+        assert!(FftPlannerAvx::<New32>::new().is_err(), "FftPlannerAvx accepted a third element type");
+        assert!(FftPlannerSse::<New32>::new().is_err(), "FftPlannerSse accepted a third element type");
+        let mut p = FftPlanner::<New32>::new();
+        assert_eq!(p.verif_kind(), "scalar", "FftPlanner did not fall back to the portable planner");
+        let fft = p.plan_fft(n, dir);
+        let mut buf: Vec<Complex<New32>> = (0..n).map(|_| Complex::new(New32(rng.normal() as f32), New32(rng.normal() as f32))).collect();
+        fft.process(&mut buf);
+        buf.iter().all(|c| c.re.0.is_finite() && c.im.0.is_finite())
+    });
+    match r {
+        Err(e) => rep.fail(format!("third-type {}", tag), e),
+        Ok(fin) => {
+            if n >= 2 {
+                rep.nontrivial += 1;
+            }
+            if !fin {
+                rep.fail(format!("third-type {}", tag), "non-finite output".into());
+            }
+        }
+    }
+}
+
 pub fn run(args: &[String]) {
     let hi: usize = args[0].parse().unwrap();
     let seed = seed_from_env() ^ 0x1414;
@@ -65,6 +91,11 @@ pub fn run(args: &[String]) {
         for dir in [FftDirection::Forward, FftDirection::Inverse] {
             one::<OpCount>("OpCount(16 bytes)", OpCount::new, n, dir, &mut rng, &mut rep);
             one::<Dd>("double-double", Dd::new, n, dir, &mut rng, &mut rep);
+            if n < 300 {
+                // same size as f32 / f64 but a different type (tolerance of the f32 newtype is f32's)
+                one::<New64>("newtype-f64(8 bytes)", New64, n, dir, &mut rng, &mut rep);
+                one32(n, dir, &mut rng, &mut rep);
+            }
         }
         if n == 100 {
             rep.sample("n=100: FftPlanner::<OpCount> and ::<Dd>: SIMD planners Err, verif_kind()=scalar, only ring ops, output vs double-double reference".into());
